@@ -19,6 +19,7 @@ EXPLANATION = (
     "the bit was clear; no readiness lock is held across a child poll; a cleared bit is always followed by a poll of that "
     "child (or a proof that it is finished); children that can produce again are re-armed. Decides protocol clauses, not "
     "the liveness statement itself (that follows by the invariant argument in DESIGN.md §3/C01).")
+EXPLANATION += (' (SCAN) Pending is returned only after the scan covered every child and a Pending child continues the scan; (LOCK) additionally no child or child-produced value is dropped while the readiness guard is held (a destructor that wakes a sibling would dead-lock on the non-reentrant lock).')
 ASSUMPTIONS = [
     "rustc MIR construction and callee resolution (nightly) are faithful to the stable build",
     "std::sync::Mutex is non-reentrant and provides mutual exclusion; Waker::wake_by_ref/clone_from behave per std docs",
@@ -193,7 +194,8 @@ def rule_lock(ctx, u):
                 continue
             # path-correlated: is there a path on which the value is still initialised *and* a guard is held?
             single = leaves == 1
-            states = scan.joint_init_at(body, tracked, l, single, [b])[b]
+            ke = scan.payload_free_edges(body, l) if single else ()
+            states = scan.joint_init_at(body, tracked, l, single, [b], kill_edges=ke)[b]
             live = set()
             for st in states:
                 if l in st:
